@@ -28,7 +28,7 @@ RUNS = {"quick": 40000, "thorough": 1000000}
 WALL = {"quick": 240, "thorough": 1500}
 PARTITIONS = [{"name": "default", "env": {}}]
 FAULT_KINDS = ["operand_swap", "tree_shape", "empty_partial", "dtype_mix", "adaptive_union", "refusal_probe",
-               "self_add", "dask_task_reorder", "dask_duplicate_exec", "dask_workers>1", "dask_chunking"]
+               "self_add", "member_filled_between_sums", "dask_task_reorder", "dask_duplicate_exec", "dask_workers>1", "dask_chunking"]
 RULE = ("one run = a seeded stream (<= 30 entries) partitioned over 1-5 partial histograms (fixed equal bins or "
         "adaptive fixed-width on a common grid; mixed dtypes; facade or fill_n) reduced by a seeded sequence of "
         "+, +=, sum(), HistogramCollection.sum(), 0+h, commutation checks and refusal probes; or one dask facade "
@@ -150,6 +150,19 @@ def generate(rng, seed, part):
         else:
             ops.append({"op": "refuse", "kind": rng.choice(REFUSALS), "a": rng.choice(nodes),
                         "inplace": rng.random() < 0.5})
+    if ndim == 1 and mode == "fixed" and rng.random() < 0.3 and n:
+        # a persistent HistogramCollection over some partials: sum, then a member is filled directly, then sum again
+        members = [rng.randrange(P) for _ in range(rng.randint(1, 3))]
+        members = list(dict.fromkeys(members))
+        ops.append({"op": "coll_make", "items": members})
+        for _ in range(rng.randint(1, 4)):
+            if rng.random() < 0.5:
+                ops.append({"op": "coll_sum_again", "out": nxt})
+                nxt += 1
+            else:
+                ops.append({"op": "coll_fill_member", "m": rng.randrange(len(members)), "i": rng.randrange(n)})
+        ops.append({"op": "coll_sum_again", "out": nxt})
+        nxt += 1
     # make sure a full reduction of all partials exists in two different shapes
     perm = list(range(P))
     rng.shuffle(perm)
@@ -408,6 +421,7 @@ def execute(plan, ctx, rules=("C05",)):
             check_moments(ctx, cfg, entries, res, bag, opname)
 
     n_reduce = 0
+    persistent = None
     for step, op in enumerate(plan["ops"]):
         ctx.step = step
         ctx.advance()
@@ -527,6 +541,46 @@ def execute(plan, ctx, rules=("C05",)):
             check_result(res, bag, items, o)
             if res is not items[0].h:  # sum([a]) returning a itself is judged by C12, not here
                 nodes[op["out"]] = Node(res, bag)
+        elif o == "coll_make":
+            items = [nodes[i] for i in op["items"] if i in nodes]
+            if not items or ndim != 1:
+                continue
+            ok, coll = attempt(lambda: HistogramCollection(*[x.h for x in items]))
+            ctx.ev("reduce", o, tuple(op["items"]), "ok" if ok else exc_tag(coll))
+            if not ok:
+                persistent = None
+                continue
+            persistent = (coll, items)
+        elif o == "coll_fill_member":
+            if not persistent:
+                continue
+            coll, items = persistent
+            m = items[op["m"] % len(items)]
+            i = op["i"]
+            if i >= len(entries):
+                continue
+            v, w = entries[i]
+            ok, res = attempt(m.h.fill, v) if w is None else attempt(m.h.fill, v, w)
+            ctx.ev("reduce", o, i, "ok" if ok else exc_tag(res))
+            ctx.abstract(o, ok)
+            if ok:
+                m.bag.append(i)
+                ctx.fault("member_filled_between_sums")
+        elif o == "coll_sum_again":
+            if not persistent:
+                continue
+            coll, items = persistent
+            ok, res = attempt(coll.sum)
+            ctx.ev("reduce", o, None, "ok" if ok else exc_tag(res))
+            ctx.abstract(o, len(items), ok)
+            if not ok:
+                if c05:
+                    ctx.violation("C05/valid-add-accepted", f"C05/add-raised/{kind}/{exc_tag(res)}",
+                                  f"HistogramCollection.sum() raised {res!r}")
+                return
+            n_reduce += 1
+            bag = [i for x in items for i in x.bag]
+            check_result(res, bag, items, "coll_sum")
         elif o == "radd0":
             a = nodes.get(op["a"])
             if a is None:
